@@ -430,6 +430,16 @@ def family(S):
 RESYNC = {"cleanup"}
 
 
+def _has_none(x):
+    if x is None:
+        return True
+    if isinstance(x, (list, tuple)):
+        return any(_has_none(y) for y in x)
+    if isinstance(x, dict):
+        return any(_has_none(y) for y in x.values())
+    return False
+
+
 def run_model(case, ctx):
     """C05 for SimplicialComplex"""
     try:
@@ -443,7 +453,7 @@ def run_model(case, ctx):
     for step, op in enumerate(case["ops"]):
         cop = sanitise(S, concretise(S, op), ctx)
         name = cop[0]
-        if strk and (name in BULK or name in WEIGHTED) and "null" in __import__("json").dumps(cop[2] if name in BULK else cop[1]):
+        if strk and (name in BULK or name in WEIGHTED) and _has_none(cop[2] if name in BULK else cop[1]):
             ctx.event("sanitised")  # format sniffing on string labels with a None: exception type not specified
             continue
         o_before, fam_before, _ = family(S)
